@@ -188,7 +188,25 @@ def analyse_errors(ctx):
                             break
                 if vals:
                     ret_values[f] = vals
+        # phase 1: the functions that always leave an exception set (a
+        # growing set, computed to its fixed point first, so that the
+        # shrinking sets of phase 2 start from the final one: interleaving
+        # the two made mutually recursive functions flip-flop)
         for _ in range(12):
+            w = ErrWalk(facts, null_err, always, neg_err)
+            w.ret_values = ret_values
+            grown = set(always)
+            for f in funcs:
+                ps = paths[f]
+                if ps is None:
+                    continue
+                ends = [p for p in ps if p.outcome[0] in ("RETURN", "END")]
+                if ends and all(w.walk(p) == "set" for p in ends):
+                    grown.add(f)
+            if grown == always:
+                break
+            always = grown
+        for _ in range(24):
             w = ErrWalk(facts, null_err, always, neg_err)
             w.ret_values = ret_values
             n_always = {"raise_trait_error"}
@@ -244,6 +262,16 @@ def analyse_errors(ctx):
                     if any(re.fullmatch(r"-\d+", p.outcome[1])
                            and w.walk(p) != "set" for p in rets):
                         n_neg[f] = False
+            # phase 2 only shrinks: what failed once stays failed
+            for f in n_null:
+                if not null_err.get(f, True):
+                    n_null[f] = False
+                    if f not in n_bad and f in bad_paths:
+                        n_bad[f] = bad_paths[f]
+            for f in n_neg:
+                if not neg_err.get(f, True):
+                    n_neg[f] = False
+            n_always |= always
             stable = (n_always == always and n_null == null_err
                       and n_neg == neg_err)
             always, null_err, neg_err, bad_paths = n_always, n_null, n_neg, n_bad
